@@ -2154,8 +2154,9 @@ struct Explorer {
       if (i + 1 >= in.size()) break;
       if (in[i + 1] != '[') continue;   // a bare ESC is dropped, the text after it stays
       i += 2;
-      while (i < in.size() && !isalpha((unsigned char)in[i])) ++i;
-      // the final letter is consumed
+      // ECMA-48 5.4: parameter bytes 0x30-0x3F, intermediate bytes 0x20-0x2F, one final byte 0x40-0x7E (not only letters)
+      while (i < in.size() && !((unsigned char)in[i] >= 0x40 && (unsigned char)in[i] <= 0x7e)) ++i;
+      // the final byte is consumed
     }
     return o;
   }
